@@ -16,7 +16,8 @@ Proof. reflexivity. Qed.
 
 (* xsync/xsync.go: func (Future) Fill *)
 Lemma census_C18_xsync_xsync_Future_Fill_ok : census_C18_xsync_xsync_Future_Fill =
-  [("close", 1)].
+  [("call:atomic.CompareAndSwapUint32", 1);
+   ("close", 1)].
 Proof. reflexivity. Qed.
 
 (* xsync/xsync.go: func (Future) Wait *)
@@ -26,10 +27,11 @@ Proof. reflexivity. Qed.
 
 (* xsync/xsync.go: func (Future) WaitContext *)
 Lemma census_C18_xsync_xsync_Future_WaitContext_ok : census_C18_xsync_xsync_Future_WaitContext =
-  [("arm:recv", 2);
+  [("arm:default", 1);
+   ("arm:recv", 3);
    ("call:.Done", 1);
    ("call:.Err", 1);
-   ("select", 1)].
+   ("select", 2)].
 Proof. reflexivity. Qed.
 
 (* xsync/xsync_go1.19.go: func (Watchable) Set *)
@@ -55,14 +57,16 @@ Definition census_expected_C18 : Prop :=
   census_C18_xsync_xsync_NewFuture =
   [("makechan", 1)]
   /\ census_C18_xsync_xsync_Future_Fill =
-  [("close", 1)]
+  [("call:atomic.CompareAndSwapUint32", 1);
+   ("close", 1)]
   /\ census_C18_xsync_xsync_Future_Wait =
   [("recv", 1)]
   /\ census_C18_xsync_xsync_Future_WaitContext =
-  [("arm:recv", 2);
+  [("arm:default", 1);
+   ("arm:recv", 3);
    ("call:.Done", 1);
    ("call:.Err", 1);
-   ("select", 1)]
+   ("select", 2)]
   /\ census_C18_xsync_xsync_go1_19_Watchable_Set =
   [("call:.Swap", 1);
    ("close", 1);
